@@ -50,6 +50,12 @@ func parseSDL(root *Root, reader io.Reader) (types []Type, extends []*Extend, er
 		if err == nil {
 			token, err = p.readToken()
 		}
+		if err == nil && len(token) == 0 && p.onDeck != 0 && p.onDeck != '"' {
+			// Nothing was read and the next character can not start a
+			// definition or a description. Without an error the loop
+			// would see the same character again, forever.
+			err = fmt.Errorf("%w, unexpected character '%c' at %d:%d", ErrParse, p.onDeck, p.line, p.col)
+		}
 		if err == nil && 0 < len(token) {
 			switch token {
 			case directiveStr:
